@@ -52,7 +52,7 @@ class DecoSys:
                 return "cancel"
             return "other:" + type(exc).__name__
 
-        if genbased:
+        if genbased and genbased != "recreate":
             async def reporter(*a):        # an argument of the manager that happens to be a coroutine function
                 return None
 
@@ -88,6 +88,40 @@ class DecoSys:
                         s.ex[cc] += 1
 
             deco = manager(report=reporter) if suppress else manager(reporter)      # all parameters optional; given by keyword or by position
+        elif genbased == "recreate":
+            # a class-based manager that asks for a fresh copy per decorated call -- through a _recreate_cm it inherits
+            # from a base class of its own (the generator-made managers do the same with a fresh generator)
+            class SingleUse(L.ContextDecorator):
+                def __init__(self):
+                    s.ngen += 1
+                    self.gid = s.ngen
+                    self.used = False
+
+                def _recreate_cm(self):
+                    return type(self)()
+
+            class Manager(SingleUse):
+                async def __aenter__(self):
+                    c = s.current
+                    if self.used:
+                        s.errors.append(("enter-resumed-by-other-call", c, "single-use manager entered twice"))
+                    self.used = True
+                    s.gen[c] = self.gid
+                    await Suspend(s.acct, ("enter", c))
+                    s.en[s.current] += 1
+                    return self.gid
+
+                async def __aexit__(self, et, ev, tb):
+                    cc = s.current
+                    s.exit_saw[cc] = (self.gid, label(cc, ev))
+                    try:
+                        await Suspend(s.acct, ("exit", cc))
+                    finally:
+                        s.ex[cc] += 1
+                    return suppress
+
+            deco = Manager()
+            self.ngen_offset = s.ngen        # the decorating instance itself is never entered
         else:
             class Manager(L.ContextDecorator):
                 async def __aenter__(self):
@@ -218,8 +252,9 @@ INVARIANT Result
 
 TIERS = {
     "quick": [(2, True, False, False), (2, True, True, False), (2, False, False, False), (3, True, False, True), (2, False, True, False),
+              (2, "recreate", False, False),
               (2, True, False, True, True)],     # ... the manager was first used directly in an `async with`
-    "thorough": [(3, True, False, False), (3, True, True, False), (3, False, False, False), (3, False, True, False), (4, True, False, True),
+    "thorough": [(3, "recreate", False, False), (3, True, False, False), (3, True, True, False), (3, False, False, False), (3, False, True, False), (4, True, False, True),
                  (4, False, True, True)],
 }
 
